@@ -7,6 +7,7 @@ pub mod c03;
 pub mod c04;
 pub mod c05;
 pub mod c06;
+pub mod c07;
 pub mod c09;
 #[cfg(not(feature = "inproc"))]
 pub mod c12;
@@ -43,6 +44,7 @@ table! {
     "C04" => c04::C04,
     "C05" => c05::C05,
     "C06" => c06::C06,
+    "C07" => c07::C07,
     "C09" => c09::C09,
     #[cfg(not(feature = "inproc"))]
     "C12" => c12::C12,
